@@ -106,6 +106,8 @@ class Ctx(object):
 
     def floor(self, rid, floor):
         n = self.rule_counts.get(rid, [0, 0])[0]
+        if any(f.rule == rid for f in self.findings):
+            return      # the rule fired: report the violation rather than a missed floor
         if n < floor:
             raise AnalysisError('%s matched %d instances, fewer than its floor %d '
                                 '(rule vacuous or anchor moved)' % (rid, n, floor))
